@@ -330,4 +330,120 @@ Section LeafSpecs.
           apply wrap_id; lia.
       + f_equal. rewrite Z.rem_mod_nonneg; lia.
   Qed.
+
+  Lemma unsigned_lo s : ssigned s = false -> slo s = 0.
+  Proof. unfold slo; intros ->; reflexivity. Qed.
+  Lemma unsigned_hi s : shi s < 2 ^ 128.
+  Proof. destruct s; vm_compute; reflexivity. Qed.
+  Lemma wide_u_unsigned s : wide_u s = true -> ssigned s = false.
+  Proof. destruct s; simpl; congruence. Qed.
+  Lemma wide_i_signed s : wide_i s = true -> ssigned s = true.
+  Proof. destruct s; simpl; congruence. Qed.
+
+  (* ---- all leaves together: the leaf at an accepted position computes the ref-ref semantics ---- *)
+  Theorem leaf_model_sound f x y :
+    is_arith_role (f_role f) = true -> known_leaf f = true ->
+    in_oty (k_ty (f_lhs f)) x -> in_oty (k_ty (f_rhs f)) y ->
+    leaf_model uop uop_s s_uop ushift upow_s upow_b iop f x y = zsem (fam f) (f_op f) x y.
+  Proof.
+    destruct f as [r o [tl rl] [tr rr] sh]. unfold known_leaf, leaf_model, fam. cbn [f_role f_op f_lhs f_rhs k_ty k_ref].
+    intros Hr Hk Hx Hy.
+    assert (Hk' : match tl, tr with
+                  | OBig b, OBig b' => (bigbig8 o && bigty_eqb b b') || (opk_eqb o OpPow && role_eqb r RBinop && bigty_eqb b' FamU)
+                  | OBig b, OSc s => (arith5 o && wide_for b s && negb rr) || ((opk_eqb o OpShl || opk_eqb o OpShr) && negb rr)
+                                     || (opk_eqb o OpPow && role_eqb r RBinop && negb (ssigned s) && (negb rr || bigty_eqb b FamI))
+                  | OSc s, OBig b => match r with
+                                     | RBinop => (opk_eqb o OpSub || opk_eqb o OpDiv || opk_eqb o OpRem) && wide_for b s && negb rl
+                                     | _ => opk_eqb o OpRem && bigty_eqb b FamU && rr end
+                  | OSc _, OSc _ => false end = true).
+    { destruct r; try discriminate; apply andb_true_iff in Hk; destruct Hk as [_ Hk]; exact Hk. }
+    clear Hk.
+    destruct tl as [bl|sl], tr as [br|sr]; try discriminate.
+    - (* big, big *)
+      destruct bl, br; cbn [in_oty] in Hx, Hy.
+      + destruct o; simpl in Hk'; try discriminate; try (apply H_ubigbig; auto; fail).
+        destruct rl; [apply leaf_upow_b_ref_spec | apply H_upow_big]; assumption.
+      + destruct o; simpl in Hk'; try discriminate; rewrite ?andb_false_r in Hk'; discriminate.
+      + destruct o; simpl in Hk'; try discriminate; rewrite ?andb_false_r in Hk'; try discriminate.
+        apply ipow_spec; [assumption|].
+        destruct rl; [apply leaf_upow_b_ref_spec | apply H_upow_big]; lia.
+      + destruct o; simpl in Hk'; try discriminate; rewrite ?andb_false_r in Hk'; try discriminate;
+          apply H_ibigbig; reflexivity.
+    - (* big (op) scalar *)
+      cbn [in_oty] in Hy.
+      pose proof (unsigned_hi sr) as Hhi.
+      destruct bl; cbn [in_oty] in Hx.
+      + (* BigUint *)
+        assert (Hu : arith5 o = true -> 0 <= y).
+        { intros Ha. rewrite Ha in Hk'. destruct o; try discriminate; simpl in Hk';
+            rewrite ?orb_false_r in Hk'; rewrite !andb_true_iff in Hk'; destruct Hk' as [Hw _];
+            unfold wide_for in Hw; rewrite ?orb_false_r in Hw; apply wide_u_unsigned in Hw; rewrite (unsigned_lo _ Hw) in Hy; lia. }
+        destruct o; try (specialize (Hu eq_refl)).
+        * apply H_uadd_scalar; assumption.
+        * apply H_usub_scalar; assumption.
+        * apply H_umul_scalar; assumption.
+        * apply H_udivrem_scalar; assumption.
+        * apply H_udivrem_scalar; assumption.
+        * simpl in Hk'; discriminate.
+        * simpl in Hk'; discriminate.
+        * simpl in Hk'; discriminate.
+        * apply H_ushift; auto.
+        * apply H_ushift; auto.
+        * simpl in Hk'.
+          repeat (match goal with H : _ && _ = true |- _ => apply andb_true_iff in H; destruct H end).
+          match goal with H : negb (ssigned sr) = true |- _ => apply negb_true_iff in H; rewrite (unsigned_lo _ H) in Hy end.
+          destruct rl; [apply leaf_upow_s_ref_spec | apply H_upow_scalar]; lia.
+      + (* BigInt *)
+        assert (Hu : arith5 o = true -> if ssigned sr then True else 0 <= y).
+        { intros Ha. destruct (ssigned sr) eqn:Sg; [exact I|]. rewrite (unsigned_lo _ Sg) in Hy; lia. }
+        destruct o; try (specialize (Hu eq_refl)); destruct (ssigned sr) eqn:Sg;
+          try (simpl in Hk'; discriminate).
+        * apply leaf_iadd_i_spec; assumption.
+        * apply leaf_iadd_u_spec; assumption.
+        * apply leaf_isub_i_spec; assumption.
+        * apply leaf_isub_u_spec; assumption.
+        * apply leaf_imul_i_spec; assumption.
+        * apply leaf_imul_u_spec; assumption.
+        * apply leaf_idiv_i_spec; assumption.
+        * apply leaf_idiv_u_spec; assumption.
+        * apply leaf_irem_i_spec; assumption.
+        * apply leaf_irem_u_spec; assumption.
+        * apply leaf_ishl_spec; assumption.
+        * apply leaf_ishl_spec; assumption.
+        * apply leaf_ishr_spec; assumption.
+        * apply leaf_ishr_spec; assumption.
+        * simpl in Hk'. rewrite ?andb_false_r in Hk'. discriminate.
+        * rewrite (unsigned_lo _ Sg) in Hy.
+          apply ipow_spec; [lia|].
+          destruct rl; [apply leaf_upow_s_ref_spec | apply H_upow_scalar]; lia.
+    - (* scalar (op) big *)
+      cbn [in_oty] in Hx.
+      destruct br; cbn [in_oty] in Hy.
+      + (* BigUint *)
+        destruct r; try discriminate.
+        * (* uN (op) BigUint *)
+          rewrite !andb_true_iff in Hk'. destruct Hk' as [[Ho Hw] _].
+          unfold wide_for in Hw. rewrite ?orb_false_r in Hw. apply wide_u_unsigned in Hw.
+          rewrite (unsigned_lo _ Hw) in Hx.
+          destruct o; simpl in Ho; try discriminate.
+          -- apply H_scalar_usub; lia.
+          -- apply H_scalar_udivrem; lia.
+          -- apply H_scalar_udivrem; lia.
+        * (* scalar %= &BigUint *)
+          rewrite !andb_true_iff in Hk'. destruct Hk' as [[Ho _] _].
+          apply opk_eqb_eq in Ho; subst o.
+          apply leaf_rem_assign_spec; assumption.
+      + (* BigInt *)
+        destruct r; try discriminate; [|rewrite andb_false_r in Hk'; discriminate].
+        rewrite !andb_true_iff in Hk'. destruct Hk' as [[Ho Hw] _].
+        assert (Hu : if ssigned sl then True else 0 <= x).
+        { destruct (ssigned sl) eqn:Sg; [exact I|]. rewrite (unsigned_lo _ Sg) in Hx; lia. }
+        destruct o; simpl in Ho; try discriminate; destruct (ssigned sl).
+        * apply leaf_i_isub_spec; assumption.
+        * apply leaf_u_isub_spec; assumption.
+        * apply leaf_i_idiv_spec; assumption.
+        * apply leaf_u_idiv_spec; assumption.
+        * apply leaf_i_irem_spec; assumption.
+        * apply leaf_u_irem_spec; assumption.
+  Qed.
 End LeafSpecs.
